@@ -232,7 +232,9 @@ def to_smt2(ob: Obligation, extra_fuel=0) -> str:
     s = z3.Solver()
     hyps = list(ob.hyps)
     ax = unfold_axioms(hyps + [ob.goal], extra_fuel)
-    canon = os.environ.get("PYVC_CANON_BINDERS", "1") != "0"
+    # opt-in (per contract `canon_binders=True`, or PYVC_CANON_BINDERS=1): sharing alpha-equivalent sub-formulas makes some
+    # obligations trivial and others (C03 setupTable_cmap.post.full-subtable-2) unprovable for every configuration
+    canon = os.environ.get("PYVC_CANON_BINDERS", "0") == "1" or bool(ob.info.get("canon_binders"))
     for h in hyps + ax:
         s.add(canon_binders(h) if canon else h)
     s.add(z3.Not(canon_binders(ob.goal) if canon else ob.goal))
